@@ -54,10 +54,13 @@ def run_rules(pid, ctx):
                 uniq.append(rep)
         res.reports = uniq
         # floors
-        if res.floor and len(res.instances) < res.floor and not res.reports:
+        # floors: the number counted on the pinned tree; rules with many instances tolerate the loss of a tenth of their
+        # sites (a legitimate edit may remove a site; a vacuous pass loses nearly all of them)
+        eff_floor = res.floor if res.floor < 10 else int(res.floor * 0.9)
+        if res.floor and len(res.instances) < eff_floor and not res.reports:
             res.report("%s|floor" % res.rule, "-", "-",
                        "rule examined %d instances, fewer than the %d confirmed by hand: fails closed"
-                       % (len(res.instances), res.floor), reason="floor")
+                       % (len(res.instances), eff_floor), reason="floor")
         results.append(res)
     return results
 
